@@ -236,6 +236,7 @@ def run(rep, ix, tier):
     rep.floor('R-C07-REGISTRY', 40)
     rep.floor('R-C07-SIBLING', 12)
     rep.floor('R-C07-WORD', 9)
+    rep.floor('R-C07-CLAMP', 9)
 
 
 # ------------------------------------------------------------------ LIS decoders in three languages
@@ -459,11 +460,14 @@ def run_to68(rep, ix):
         return e, e_clamped
     want = set()
     from .. import symx
+    # (the word returned for negative overflow is taken from the Python implementation here: this rule decides that the three
+    # encoders agree; whether that word is the right one is decided by R-C07-CLAMP below)
+    neg_clamp = ix.fold_name(LIS_P, 'RC_68_CODE_MIN')
     ref_src = (
         'def ref(V):\n'
         '    if E <= -151:\n        return 0x40000000\n'
         '    elif E > 127:\n'
-        '        if V < 0:\n            return 0xFFC00000\n'
+        f'        if V < 0:\n            return {neg_clamp}\n'
         '        return 0x7FFFFFFF\n'
         '    if E < -128:\n        M /= 2 ** (-128 - E)\n        E = -128\n'
         '    if V < 0:\n        E = 127 - E\n        W = 1\n'
@@ -491,10 +495,32 @@ def run_to68(rep, ix):
         for c, v in sorted(got):
             rep.ob('R-C07-SIBLING', name, f'path {[x for x in c]} -> {v}'[:300], (c, v) in w,
                    found=v, required='a path of the reference encoder', module=mod, node=f, nontrivial=True)
-    for cname, want_v in (('RC_68_CODE_ZERO', 0x40000000), ('RC_68_CODE_MIN', 0xFFC00000), ('RC_68_CODE_MAX', 0x7FFFFFFF)):
+        # saturation: a number beyond the range is stored as the nearest representable one.  frexp(-2^127) has exponent 128, so
+        # the most negative in-range value RC_68_MIN itself takes the negative overflow path and must come back from its word.
+        lo, hi = ix.fold_name(LIS_P, 'RC_68_MIN'), ix.fold_name(LIS_P, 'RC_68_MAX')
+        for c, v in sorted(got):
+            if not v.isdigit():
+                continue
+            w = int(v)
+            vneg = dict(c).get('(cmp Lt V 0)')
+            kind, want_val = ('underflow', 0) if vneg is None else (('negative overflow', lo) if vneg else ('positive overflow', hi))
+            dec = _decode68(w)
+            rep.ob('R-C07-CLAMP', name, f'{kind} is stored as {w:#010x} which decodes to {want_val!r}', float(dec) == want_val,
+                   found=f'{w:#010x} decodes to {float(dec)!r}', required=f'the word of {want_val!r}' + (' (0x80000000)' if kind.startswith('neg') else ''),
+                   module=mod, node=f)
+    for cname, want_v in (('RC_68_CODE_ZERO', 0x40000000), ('RC_68_CODE_MAX', 0x7FFFFFFF)):
         v = ix.fold_name(LIS_P, cname)
         rep.ob('R-C07-SIBLING', f'{LIS_P}:{cname}', f'{cname} = {v:#x}', v == want_v, found=hex(v), required=hex(want_v),
                module=pm)
+
+
+def _decode68(w):
+    """LIS-79 code 68 value of a 32-bit word (same formula as lis_spec(68), on a constant)"""
+    from fractions import Fraction
+    s, x, fr = w >> 31 & 1, w >> 23 & 0xFF, w & 0x7FFFFF
+    if s:
+        return Fraction(fr - (1 << 23), 1 << 23) * Fraction(2) ** (127 - x)
+    return Fraction(fr, 1 << 23) * Fraction(2) ** (x - 128)
 
 
 # ------------------------------------------------------------------ RP66V1
